@@ -1,96 +1,60 @@
 /-
 C02 — Applying a legal move yields the correct successor position.
 
-`Board.moveUnchecked` is the line-by-line model of `move_unchecked_into`; `Spec.Position.applyKind`
-is the successor the rules prescribe on the mailbox.  `abs` reads a model board as a mailbox.
+`Props/C02/Basic.lean` holds the field-level theorems that need no hypothesis (side to move, clocks,
+marker, rights masks, refusal of illegal moves).  This file states the property itself: for every
+well-formed board — hence for every position reachable by legal play from the standard start or
+from any parsed position — the checked move operations accept exactly the legal moves, and the
+successor, read as a mailbox position, is exactly the position the rules prescribe
+(`Spec.Position.apply`: rook hop of castling, removal of the pawn captured en passant, promoted
+piece, side to move, rights, marker, clocks).
 -/
-import ChessVerif.Proofs.MoveAbs
+import ChessVerif.Props.C02.Basic
+import ChessVerif.Proofs.Legal.Reach
 
 namespace Chess.Props.C02
 open Chess Chess.Spec
 
-/-! ### the checked operations accept exactly the legal moves and leave the board untouched otherwise -/
+/-- **C02.** If the checked move returns a successor then the move is legal under the rules, the
+successor is again well-formed, and it *is* the position the rules prescribe (clock values below
+the 16-bit limit). -/
+theorem moveNew_abs (b b' : Board) (h : b.WF = true) (m : Move) (hh : b.half < 65535) (hf : b.full < 65535)
+    (hm : b.moveNew m = some b') :
+    (abs b).legal m = true ∧ b'.WF = true ∧ abs b' = (abs b).apply m :=
+  Legal.moveNew_abs b b' h m hh hf hm
 
-theorem moveNew_legal (b : Board) (m : Move) (h : b.isLegal m = true) :
-    b.moveNew m = some (b.moveUnchecked m) := by simp [Board.moveNew, h]
-theorem moveNew_illegal (b : Board) (m : Move) (h : b.isLegal m = false) : b.moveNew m = none := by
-  simp [Board.moveNew, h]
+/-- the checked move refuses exactly the illegal moves (and then returns nothing: the board is untouched) -/
+theorem moveNew_none_iff (b : Board) (h : b.WF = true) (m : Move) :
+    b.moveNew m = none ↔ (abs b).legal m = false := Legal.moveNew_none_iff b h m
 
-/-! ### side to move, clocks, marker, rights — for every board and move (no hypothesis) -/
+/-- piece placement of the successor for every pseudo-legal move of every kind -/
+theorem move_placement (b : Board) (h : b.WF = true) (m : Move) (κ : Position.Kind)
+    (hps : (abs b).pseudo m = some κ) (s : Sq) :
+    pieceOn (b.moveUnchecked m).raw s = ((abs b).applyKind m κ).pieceAt s := Legal.move_placement b h m κ hps s
 
-/-- the side to move flips -/
-theorem move_turn (b : Board) (m : Move) : (b.moveUnchecked m).turn = b.turn.flip := by
-  rw [Board.moveUnchecked_eq, Board.mvScan_turn, Board.mvSpecial_turn, Board.mvBase_turn]
+/-- all six components of the successor -/
+theorem move_abs (b : Board) (h : b.WF = true) (m : Move) (κ : Position.Kind)
+    (hps : (abs b).pseudo m = some κ) (hh : b.half < 65535) (hf : b.full < 65535) :
+    let q := (abs b).applyKind m κ
+    let a := abs (b.moveUnchecked m)
+    a.pieceAt = q.pieceAt ∧ a.turn = q.turn ∧ (∀ sd c, a.rights sd c = q.rights sd c) ∧
+    a.ep = q.ep ∧ a.half = q.half ∧ a.full = q.full := Legal.move_abs b h m κ hps hh hf
 
-/-- full-move number: +1 after Black moves (saturating at the 16-bit limit) -/
-theorem move_full (b : Board) (m : Move) :
-    (b.moveUnchecked m).full = satAdd16 b.full (match b.turn with | .white => 0 | .black => 1) := by
-  rw [Board.moveUnchecked_eq, Board.mvScan_full, Board.mvSpecial_full, Board.mvBase_full]
-  cases b.turn <;> rfl
+/-- well-formedness is preserved by every legal move … -/
+theorem move_WF (b : Board) (h : b.WF = true) (m : Move) (hl : b.isLegal m = true) :
+    (b.moveUnchecked m).WF = true := Legal.move_WF b h m hl
 
-/-- half-move clock: reset by pawn moves and captures, otherwise +1 (saturating) -/
-theorem move_half (b : Board) (m : Move) :
-    (b.moveUnchecked m).half =
-      if b.raw.pieceOfUnchecked m.source = .pawn ∨ (b.raw.pieceOf m.dest).isSome then 0
-      else satAdd16 b.half 1 := by
-  rw [Board.moveUnchecked_eq, Board.mvScan_half, Board.mvSpecial_half, Board.mvBase_half]
-  by_cases h1 : b.raw.pieceOfUnchecked m.source = .pawn <;>
-    by_cases h2 : (b.raw.pieceOf m.dest).isSome = true <;> simp [h1, h2]
+/-- … so the statements above hold along every legal game from the standard start … -/
+theorem moveNew_abs_reachable_standard (b b' : Board) (hr : Board.Reachable Board.standard b)
+    (m : Move) (hh : b.half < 65535) (hf : b.full < 65535) (hm : b.moveNew m = some b') :
+    (abs b).legal m = true ∧ Board.Reachable Board.standard b' ∧ abs b' = (abs b).apply m :=
+  Legal.moveNew_abs_reachable_standard b b' hr m hh hf hm
 
-/-- castling rights: the per-square masks of the destination (opponent's rights) and of the source
-(own rights) are applied, nothing else -/
-theorem move_castle (b : Board) (m : Move) :
-    (b.moveUnchecked m).castle =
-      Castle.removeForSq (Castle.removeForSq b.castle b.turn.flip m.dest) b.turn m.source := by
-  rw [Board.moveUnchecked_eq, Board.mvScan_castle, Board.mvSpecial_castle, Board.mvBase_castle]
-
-/-- en-passant marker: set on, and only on, a non-promoting pawn move whose source and destination
-both lie on the mover's double-step ranks (`PAWN_DOUBLE_MOVE`) -/
-theorem move_ep (b : Board) (m : Move) :
-    (b.moveUnchecked m).ep =
-      if b.raw.pieceOfUnchecked m.source = .pawn ∧ m.piece = none ∧
-         ((BB.ofSq m.source ^^^ BB.ofSq m.dest) &&& Lookup.pawnDoubleMove b.turn) = (BB.ofSq m.source ^^^ BB.ofSq m.dest)
-      then some m.dest.file else none := by
-  rw [Board.moveUnchecked_eq, Board.mvScan_ep, Board.mvSpecial_ep, Board.mvBase_ep]
-
-set_option maxRecDepth 100000 in
-/-- the per-square right masks (translated grid) are exactly: a1/h1/e1 clear White's Q/K/both,
-a8/h8/e8 clear Black's, every other square clears nothing -/
-theorem castle_grid : ∀ (c : Color) (s : Sq) (cr : Fin 16),
-    Castle.removeForSq cr.val c s =
-      cr.val &&& (match c, s.val with
-        | .white, 0 => 13 | .white, 7 => 14 | .white, 4 => 12
-        | .black, 56 => 7 | .black, 63 => 11 | .black, 60 => 3
-        | _, _ => 15) := by
-  intro c
-  cases c
-  · decide +kernel
-  · decide +kernel
-
-/-! ### piece placement: the mailbox of the successor is the one the rules prescribe -/
-
-/-- quiet moves and plain captures of every piece type except pawn special cases and castling:
-on a board whose sets form a partition, if the source holds a piece of the mover and the destination
-holds no piece of the mover, the successor's mailbox is "source emptied, destination holds the mover" -/
-theorem move_placement_simple (b : Board) (m : Move) (c : Color) (p : Piece)
-    (hpart : b.raw.partitionOk = true)
-    (hsrc : pieceOn b.raw m.source = some (c, p)) (hturn : b.turn = c)
-    (hdst : ∀ q, pieceOn b.raw m.dest ≠ some (c, q))
-    (hne : m.source ≠ m.dest)
-    (hnp : p ≠ .pawn) (hnc : ¬ (p = .king ∧ ((BB.ofSq m.source ^^^ BB.ofSq m.dest) &&& Gen.Consts.castleMoves) = (BB.ofSq m.source ^^^ BB.ofSq m.dest))) :
-    ∀ s : Sq, pieceOn (b.moveUnchecked m).raw s =
-      if s = m.dest then some (c, p) else if s = m.source then none else pieceOn b.raw s :=
-  fun s => (Board.move_at_simple b m c p hpart hsrc hturn hdst hne hnp hnc s).pieceOn
-
-/-- … and the partition is preserved -/
-theorem move_partition_simple (b : Board) (m : Move) (c : Color) (p : Piece)
-    (hpart : b.raw.partitionOk = true)
-    (hsrc : pieceOn b.raw m.source = some (c, p)) (hturn : b.turn = c)
-    (hdst : ∀ q, pieceOn b.raw m.dest ≠ some (c, q))
-    (hne : m.source ≠ m.dest)
-    (hnp : p ≠ .pawn) (hnc : ¬ (p = .king ∧ ((BB.ofSq m.source ^^^ BB.ofSq m.dest) &&& Gen.Consts.castleMoves) = (BB.ofSq m.source ^^^ BB.ofSq m.dest))) :
-    (b.moveUnchecked m).raw.partitionOk = true :=
-  (RawBoard.partitionOk_iff_sqOk _).2
-    (fun s => (Board.move_at_simple b m c p hpart hsrc hturn hdst hne hnp hnc s).sqOk)
+/-- … and from every position the parser accepts -/
+theorem moveNew_abs_reachable_parsed (s : List Byte) (b₀ b b' : Board) (hp : Fen.parseFen s = .ok b₀)
+    (hr : Board.Reachable b₀ b) (m : Move) (hh : b.half < 65535) (hf : b.full < 65535)
+    (hm : b.moveNew m = some b') :
+    (abs b).legal m = true ∧ Board.Reachable b₀ b' ∧ abs b' = (abs b).apply m :=
+  Legal.moveNew_abs_reachable_parsed s b₀ b b' hp hr m hh hf hm
 
 end Chess.Props.C02
